@@ -71,6 +71,14 @@ def cipher_sizes(name):
     return None
 
 
+def _opens(AESGCM, key, nonce, wire):
+    try:
+        AESGCM(key).decrypt(nonce, wire[4:], wire[:4])
+        return True
+    except Exception:
+        return False
+
+
 # ------------------------------------------------------------------------------------------ handshakes
 def instrument(t, log):
     orig_ge = t._get_engine
@@ -412,6 +420,200 @@ def run(ctx):
                     ctx.fail("letters-share-key", {"hash": hname, "K": K, "H": hx(H), "sid": hx(sid), "n": n},
                              "two letters derive the same %d bytes" % n)
 
+    # ---------------------------------------------------------------- (f) the IV actually USED on the wire (AES-GCM)
+    # Real Packetizer under keys installed by the real _activate_*: every packet from packet 0 on is opened with an
+    # independent AES-GCM (cryptography's AESGCM used directly) under the RFC 5647 nonce schedule of the independently
+    # derived RFC 4253 IV; in the other direction packets sealed by that reference must be accepted by read_message.
+    # The nonce the real code hands to its engine is also compared, packet by packet, with the Lean trace.
+    from cryptography.hazmat.primitives.ciphers.aead import AESGCM
+    from cryptography.exceptions import InvalidTag
+
+    class WireSocket(lib_kdf.NullSocket):
+        def __init__(self):
+            lib_kdf.NullSocket.__init__(self)
+            self.inbuf = b""
+
+        def recv(self, n):
+            out, self.inbuf = self.inbuf[:n], self.inbuf[n:]
+            return out
+
+    class SpyEngine:
+        def __init__(self, real, log):
+            self._real, self._log = real, log
+
+        def encrypt(self, nonce, data, aad):
+            self._log.append(bytes(nonce))
+            return self._real.encrypt(nonce, data, aad)
+
+        def decrypt(self, nonce, data, aad):
+            self._log.append(bytes(nonce))
+            return self._real.decrypt(nonce, data, aad)
+
+    def rfc_nonce(iv, k):
+        return iv[:4] + ((int.from_bytes(iv[4:], "big") + k) % (1 << 64)).to_bytes(8, "big")
+
+    def seal_reference(key, iv, k, payload):
+        pad = 16 - ((1 + len(payload)) % 16)
+        if pad < 4:
+            pad += 16
+        body = bytes([pad]) + payload + bytes(pad)
+        length = len(body).to_bytes(4, "big")
+        return length + AESGCM(key).encrypt(rfc_nonce(iv, k), body, length)
+
+    def send_packets(pk, sock, payloads):
+        """-> [wire bytes or ('raise', site)] per packet, stopping at the first exception"""
+        out = []
+        for pl in payloads:
+            sock.sent.clear()
+            m = paramiko.Message()
+            m.add_bytes(pl)
+            try:
+                pk.send_message(m)
+            except Exception as e:
+                out.append(("raise", type(e).__name__, exc_site(e)))
+                break
+            out.append(b"".join(sock.sent))
+        return out
+
+    def recv_packets(pk, sock, wires):
+        out = []
+        for w in wires:
+            sock.inbuf += w
+            try:
+                ptype, m = pk.read_message()
+            except Exception as e:
+                out.append(("raise", type(e).__name__, exc_site(e)))
+                break
+            out.append(bytes([ptype]) + m.asbytes())  # Message(payload[1:]) : the type byte is split off
+        return out
+
+    aead_names = [n for n, i in T._cipher_info.items() if i.get("is_aead", False)]
+    nonce_reqs, nonce_cases = [], []
+    n_pk = 6 if ctx.thorough else 4
+    for cipher in aead_names:
+        for role in "cs":
+            K, H, sid = rand_K(rng), rng.randbytes(32), rng.randbytes(32)
+            algo = rng.choice([hashlib.sha256, hashlib.sha512, hashlib.sha1])
+            sock = WireSocket()
+            tt = T(sock)
+            tt.server_mode = (role == "s")
+            tt.K, tt.H, tt.session_id = K, H, sid
+            tt.kex_engine = FakeKex(algo)
+            tt.local_cipher = tt.remote_cipher = cipher
+            tt.local_mac = tt.remote_mac = "hmac-sha2-256"
+            tt.local_compression = tt.remote_compression = "none"
+            tt._remote_ext_info = None
+            spy = {"out": [], "in": []}
+            orig_ge = tt._get_engine
+
+            def ge(_o=orig_ge, _spy=spy, _t=tt, **kw):
+                return SpyEngine(_o(**kw), _spy["out" if kw.get("operation") == _t._ENCRYPT else "in"])
+
+            tt._get_engine = ge
+            ks = cipher_sizes(cipher)[0]
+            for d, fn in (("out", tt._activate_outbound), ("in", tt._activate_inbound)):
+                c2s = (role == "c") == (d == "out")
+                li, lk = (b"A", b"C") if c2s else (b"B", b"D")
+                key = lib_kdf.rfc_kdf(algo, K, H, lk, sid, ks)
+                iv = lib_kdf.rfc_kdf(algo, K, H, li, sid, 12)
+                case = {"cipher": cipher, "role": role, "dir": d, "K": K, "H": hx(H), "sid": hx(sid),
+                        "hash": algo().name, "rfc_iv": hx(iv)}
+                try:
+                    fn()
+                except Exception as e:
+                    ctx.fail("activate-raises:" + exc_site(e), case, repr(e))
+                    continue
+                payloads = [bytes([rng.randrange(1, 200)]) + rng.randbytes(rng.randrange(0, 60)) for _ in range(n_pk)]
+                if d == "out":
+                    got = send_packets(tt.packetizer, sock, payloads)
+                    for k, w in enumerate(got):
+                        ctx.case(("f", cipher, role, d, k, K), True)
+                        ctx.dist("aead-wire:send:packet%d" % min(k, 3))
+                        if isinstance(w, tuple):
+                            ctx.fail("aead-send-raises:" + w[2], dict(case, packet=k), repr(w))
+                            break
+                        try:
+                            body = AESGCM(key).decrypt(rfc_nonce(iv, k), w[4:], w[:4])
+                        except InvalidTag:
+                            which = [j for j in range(-2, 8) if j != k and _opens(AESGCM, key, rfc_nonce(iv, j), w)]
+                            ctx.fail("aead-nonce-not-rfc:send:packet%d" % min(k, 1), dict(case, packet=k, wire=hx(w)),
+                                     "packet %d on the wire does not open under key/IV derived per RFC 4253 7.2 with the "
+                                     "RFC 5647 nonce IV+%d; it opens under IV+%r" % (k, k, which))
+                            break
+                        if body[1:1 + len(payloads[k])] != payloads[k]:
+                            ctx.fail("aead-payload-mismatch:send", dict(case, packet=k), "decrypted body differs")
+                else:
+                    wires = [seal_reference(key, iv, k, pl) for k, pl in enumerate(payloads)]
+                    got = recv_packets(tt.packetizer, sock, wires)
+                    for k, r in enumerate(got):
+                        ctx.case(("f", cipher, role, d, k, K), True)
+                        ctx.dist("aead-wire:recv:packet%d" % min(k, 3))
+                        if isinstance(r, tuple):
+                            ctx.fail("aead-nonce-not-rfc:recv:packet%d" % min(k, 1), dict(case, packet=k, wire=hx(wires[k])),
+                                     "a packet sealed by an independent AES-GCM under the derived key and nonce IV+%d is "
+                                     "refused by read_message: %r" % (k, r))
+                            break
+                        if r != payloads[k]:
+                            ctx.fail("aead-payload-mismatch:recv", dict(case, packet=k), "%s != %s" % (hx(r), hx(payloads[k])))
+                nonce_cases.append((dict(case), "send" if d == "out" else "recv", iv, n_pk, [hx(u) for u in spy[d]]))
+                nonce_reqs.append("nonce %s %s %d" % ("send" if d == "out" else "recv", hx(iv), n_pk))
+    # counters at carry / overflow boundaries: IV installed directly into a real Packetizer
+    for i in range(24 if ctx.thorough else 10):
+        ctr = rng.choice([0xFF, 0xFFFF, 0xFFFFFFFF, (1 << 32) - 2, (1 << 56) - 1, (1 << 64) - 3, (1 << 64) - 2,
+                          rng.getrandbits(64), 0])
+        iv = rng.randbytes(4) + ctr.to_bytes(8, "big")
+        key = rng.randbytes(rng.choice([16, 32]))
+        site = "send" if i % 2 == 0 else "recv"
+        sock = WireSocket()
+        pk = paramiko.packet.Packetizer(sock)
+        log = []
+        case = {"site": site, "iv": hx(iv), "key_len": len(key)}
+        payloads = [bytes([rng.randrange(1, 200)]) + rng.randbytes(rng.randrange(0, 40)) for _ in range(4)]
+        if site == "send":
+            pk.set_outbound_cipher(block_engine=SpyEngine(AESGCM(key), log), block_size=16, mac_engine=None, mac_size=16,
+                                   mac_key=None, sdctr=False, etm=False, aead=True, iv_out=iv)
+            got = send_packets(pk, sock, payloads)
+            for k, w in enumerate(got):
+                if isinstance(w, tuple):
+                    if w[1] != "OverflowError":
+                        ctx.fail("aead-send-raises:" + w[2], dict(case, packet=k), repr(w))
+                    break
+                try:
+                    AESGCM(key).decrypt(rfc_nonce(iv, k), w[4:], w[:4])
+                except InvalidTag:
+                    ctx.fail("aead-nonce-not-rfc:send:packet%d" % min(k, 1), dict(case, packet=k, wire=hx(w)),
+                             "packet %d does not open under nonce IV+%d" % (k, k))
+                    break
+        else:
+            pk.set_inbound_cipher(block_engine=SpyEngine(AESGCM(key), log), block_size=16, mac_engine=None, mac_size=16,
+                                  mac_key=None, etm=False, aead=True, iv_in=iv)
+            n_ok = min(4, (1 << 64) - ctr)  # the reference does not wrap either
+            wires = [seal_reference(key, iv, k, pl) for k, pl in enumerate(payloads[:n_ok])]
+            got = recv_packets(pk, sock, wires)
+            for k, r in enumerate(got):
+                if isinstance(r, tuple):
+                    if r[1] != "OverflowError":
+                        ctx.fail("aead-nonce-not-rfc:recv:packet%d" % min(k, 1), dict(case, packet=k),
+                                 "reference-sealed packet %d refused: %r" % (k, r))
+                    break
+        ctx.case(("f2", site, iv), True)
+        ctx.dist("aead-counter:%s" % ("near-overflow" if ctr >= (1 << 64) - 4 else "carry" if ctr & 0xFF == 0xFF else "plain"))
+        # only nonces of packets that completed are wire-visible: the model prints `overflow` for the one that raised
+        done = [g for g in got if not isinstance(g, tuple)]
+        nonce_cases.append((case, site, iv, 4, [hx(u) for u in log[:len(done)]] +
+                            (["overflow"] if len(done) < len(got) and got[-1][1] == "OverflowError" else [])))
+        nonce_reqs.append("nonce %s %s %d" % (site, hx(iv), 4))
+    model_n = ctx.driver("C04", nonce_reqs)
+    if model_n is not None:
+        for (case, site, iv, n, used), reply in zip(nonce_cases, model_n):
+            if used != reply.split(" "):
+                ctx.disagree("AEAD nonce per packet (%s)" % site, case, reply, " ".join(used))
+    facts = lib_kdf.aead_order_facts(paramiko)
+    if None in facts:
+        ctx.broken.append({"kind": "ast-fact", "what": "packet.py AEAD use/increment pattern",
+                           "detail": "send=%r recv=%r (None = pattern not found)" % facts})
+    ctx.extra["aead_use_before_increment"] = {"send_message": facts[0], "read_message": facts[1]}
+
     # ---------------------------------------------------------------- (d) real handshakes
     hostkey = paramiko.Ed25519Key.from_private_key_file(_support("ed25519.key"))
     pack = ModulusPack()
@@ -507,13 +709,24 @@ META = {
               "client-out = server-in and server-out = client-in for every cipher/MAC row — stated per direction with that "
               "direction's negotiated algorithm (activateDir_rfc, peers_match_asymmetric: local and remote cipher/MAC may "
               "differ in every size); the six hash inputs are "
-              "pairwise distinct and within a role the in/out letters are disjoint; with a collision-free hash "
+              "pairwise distinct and within a role the in/out letters are disjoint; the IV actually USED on the wire under "
+              "AES-GCM: with the statement order 'call the engine with the stored IV, then step it' (an AST fact "
+              "regenerated from packet.py for send_message and read_message, theorem aead_order_generated) packet k is "
+              "sealed/opened with fixed||(counter+k) of the derived 12-byte IV, packet 0 with the derived IV itself "
+              "(aead_nonce_sequence, aead_wire_nonces; _inc_iv_counter modelled incl. its OverflowError); "
+              "with a collision-free hash "
               "(explicit hypothesis) keys of different letters differ. Tables (cipher/MAC sizes, kex hash digest sizes) "
               "are regenerated from transport.py each run. Tied by byte-exact differential runs of the real "
               "_compute_key/_activate_* with a toy hash (ordered pairs local != remote algorithm with differing key/IV/"
               "digest sizes), plus real-hash RFC oracle and real handshakes incl. rekey and asymmetric negotiation (a "
-              "client offering different cipher/MAC lists per direction)."),
-    "note": ("Trusted: Lean kernel + 3 standard axioms; hashlib; the harness (toy hash twin, RFC oracle, generators); "
+              "client offering different cipher/MAC lists per direction); for both GCM ciphers, roles and directions the "
+              "real Packetizer under keys installed by the real _activate_*: every wire packet from packet 0 on is opened "
+              "by an independent AES-GCM under the RFC 5647 nonce schedule of the independently derived IV, reference-"
+              "sealed packets must be accepted by read_message, and the nonce handed to the engine is compared per packet "
+              "with the Lean trace (also at counter carry / overflow boundaries)."),
+    "note": ("Trusted: Lean kernel + 3 standard axioms; hashlib; cryptography's AESGCM as the independent AEAD reference; "
+             "the AST pattern matcher for the AEAD use/increment order (pv/lib_kdf.py; a pattern that is not found counts "
+             "as a broken tie); the harness (toy hash twin, RFC oracle, generators); "
              "Message.add_mpint = PV.Base.Wire.encMpint (C39's correspondence). 'Never share a key' beyond distinct "
              "hash inputs rests on collision resistance (hypothesis of keys_differ_of_collision_free). The cipher "
              "engines that consume the keys (cryptography) and K/H/session_id themselves (C06) are outside this property."),
